@@ -31,7 +31,7 @@ def result_summary(tr):
 
 
 class History:
-    def __init__(self, mdib, sched=None, keep_results=True, on_commit=None):
+    def __init__(self, mdib, sched=None, keep_results=True, on_commit=None, front=False):
         self.mdib = mdib
         self.s = sched
         self.initial_version = mdib.mdib_version
@@ -44,7 +44,13 @@ class History:
         self.on_commit = on_commit
         self.last_version = mdib.mdib_version
         self.raw_results = {}
-        op.strongbind(mdib, transaction=self._observer)
+        if front:
+            # run before the provider's own observer (which sends the reports): the history entry of a version must
+            # exist before anybody can receive a report of that version
+            ov = type(mdib).transaction._get_instance_data(mdib)
+            ov._observers.insert(0, self._observer)
+        else:
+            op.strongbind(mdib, transaction=self._observer)
 
     def _observer(self, tr):
         if tr is None:
